@@ -511,6 +511,11 @@ def endpoint_cases(ctx, shapes, n_random):
         yield rows, cols, p(), p()
     for rows, cols, s, e in [(3, 3, (0, -128), (0, 0)), (3, 3, (-2**31, 0), (0, 0)), (3, 3, (0, 0), (2**31, 0)), (2, 5, (0, 0), (4, 1)), (5, 2, (1, 4), (0, 0))]:
         yield rows, cols, s, e
+    # far outside: values that wrap to an in-grid coordinate in 8, 16 or 32 bits
+    for far in (127, 128, 255, 256, 257, -255, -256, 65536, 65537, -65535, 2**32, 2**32 + 1, -2**32 + 1, 2**40):
+        yield 3, 3, (far, 0), (1, 1)
+        yield 3, 3, (1, 1), (0, far)
+        yield 2, 4, (1, far), (far, 0)
 
 
 def run_endpoints(ctx, shapes, n_random, stop_on_violation=False):
@@ -533,6 +538,54 @@ def run_endpoints(ctx, shapes, n_random, stop_on_violation=False):
             if stop_on_violation and ctx.violations:
                 return out
     return out
+
+
+def run_hash_history(ctx, n):
+    """hash consistency along a HISTORY: (a) a maze that was hashed in another interpreter (other PYTHONHASHSEED), pickled and loaded here
+    must hash like an equal maze built here (sets and dicts mix both); (b) a maze whose lattice is replaced after it was hashed — the way
+    gen_dfs_percolation does it — must hash like an equal fresh maze"""
+    import pickle, subprocess, sys, common as C
+    from maze_dataset import LatticeMaze, TargetedLatticeMaze, SolvedMaze
+    specs = []
+    for _ in range(n):
+        g = ctx.rng.randint(2, 4)
+        cl = np.array([[[ctx.rng.random() < 0.5 for _ in range(g)] for _ in range(g)] for _ in range(2)]); cl[0, -1, :] = False; cl[1, :, -1] = False
+        specs.append((g, cl))
+    code = ("import sys, pickle, numpy as np\nsys.path.insert(0, sys.argv[1])\nimport warnings; warnings.filterwarnings('ignore')\n"
+            "from maze_dataset import LatticeMaze, TargetedLatticeMaze, SolvedMaze\n"
+            "cls = pickle.loads(bytes.fromhex(sys.argv[2]))\nout = []\n"
+            "for cl in cls:\n"
+            "    ms = [LatticeMaze(connection_list=cl), TargetedLatticeMaze(connection_list=cl, start_pos=np.array([0,0]), end_pos=np.array([1,1])), SolvedMaze(connection_list=cl, solution=np.array([[0,0],[0,1]]), allow_invalid=True)]\n"
+            "    for m in ms: hash(m); {m}\n"
+            "    out.append(ms)\n"
+            "sys.stdout.buffer.write(pickle.dumps(out))\n")
+    try:
+        p = subprocess.run([sys.executable, "-c", code, str(C.REPO), pickle.dumps([cl for _, cl in specs]).hex()], capture_output=True, timeout=600,
+                           env=dict(__import__("os").environ, PYTHONHASHSEED=str(4242 + ctx.seed)))
+        theirs = pickle.loads(p.stdout)
+    except Exception as e:
+        ctx.notes.append(f"hash-history probe: child interpreter failed ({type(e).__name__})"); theirs = []
+    for (g, cl), ms in zip(specs, theirs):
+        mine = [LatticeMaze(connection_list=cl), TargetedLatticeMaze(connection_list=cl, start_pos=np.array([0, 0]), end_pos=np.array([1, 1])),
+                SolvedMaze(connection_list=cl, solution=np.array([[0, 0], [0, 1]]), allow_invalid=True)]
+        for a, b in zip(ms, mine):
+            ctx.case(("hash-across-interpreters", type(a).__name__, maze_json(b)), nontrivial=True); ctx.count("family=hash-history")
+            eq = _try(lambda: a == b)
+            if eq is True and (hash(a) != hash(b) or len({a, b}) != 1):
+                ctx.violate(f"a {type(a).__name__} hashed and pickled in another interpreter (other PYTHONHASHSEED) and loaded here equals a maze built here but hashes "
+                            f"differently (set keeps {len({a, b})})", dict(family="hash-history", variant="pickled-across-interpreters", a=maze_json(b)), key="eq-hash-history")
+                return
+    for g, cl in specs:
+        m = LatticeMaze(connection_list=cl.copy()); hash(m)
+        new = cl.copy(); idx = (0, 0, 0) if g > 1 else (1, 0, 0)
+        new[idx] = not new[idx]
+        m.__dict__["connection_list"] = new          # what gen_dfs_percolation does to the maze gen_dfs returned
+        fresh = LatticeMaze(connection_list=new.copy())
+        ctx.case(("hash-after-lattice-replaced", maze_json(fresh)), nontrivial=True); ctx.count("family=hash-history")
+        if _try(lambda: m == fresh) is True and hash(m) != hash(fresh):
+            ctx.violate("a maze whose connection_list was replaced after it had been hashed (as gen_dfs_percolation does) equals a fresh maze with the new lattice "
+                        "but keeps the old hash", dict(family="hash-history", variant="lattice-replaced-after-hash", a=maze_json(fresh)), key="eq-hash-history")
+            return
 
 
 def run_ctor_edge(ctx):
@@ -661,6 +714,7 @@ def run(ctx):
     dd = run_dedupe(ctx, 60 if q else 1500)
     ends = run_endpoints(ctx, SHAPES_Q if q else SHAPES_T, 400 if q else 10000)
     edge = run_ctor_edge(ctx)
+    run_hash_history(ctx, 6 if q else 60)
     dss = run_datasets(ctx, 12 if q else 300)
     # ---- model
     reqs = [_pair_request(c) for c, _ in pairs] + [dict(op="C09.dedupe", mazes=c["mazes"]) for c, _ in dd] \
@@ -700,6 +754,8 @@ def search(ctx):
     """oracle-only, wider exploration of the real code; stops at the first violation"""
     warnings.filterwarnings("ignore")
     run_endpoints(ctx, SHAPES_T, 2000, stop_on_violation=True)
+    if ctx.violations: return
+    run_hash_history(ctx, 30)
     if ctx.violations: return
     run_datasets(ctx, 30, stop_on_violation=True)
     if ctx.violations: return
